@@ -207,8 +207,13 @@ def replay_findings(ctx):
 
 def search(ctx, reason):
     cases = generate_cases(ctx, 150, check_paths=False)
-    ctx.violations_before = len(ctx.violations)
-    return check_property(ctx, cases)
+    if check_property(ctx, cases):
+        return True
+    # descriptor-registry histories (same-name / identifier-coincident / nested / grouped descriptors): a record decoded
+    # with another descriptor is a round-trip failure too
+    from vf.props import c03
+    _, _, found = c03.explore(ctx, report=True)
+    return found
 
 
 def run(ctx):
